@@ -73,7 +73,122 @@ pub fn run(a: &Args, prop: &'static str) {
 		drop(world);
 		let _ = std::fs::remove_dir_all(&dir);
 	}
+	if prop == "C12" && (a.shard % 2 == 0 || a.thorough()) {
+		second_reply_after_finalization(a, &mut rep, &mut rng);
+	}
 	rep.write(&a.out);
+}
+
+/// C12, "no two slates a wallet takes part in ever carry the same public nonce from it", at the one place where the
+/// wallet could be made to sign twice with one nonce: a second, *different* reply to a transaction it has already
+/// finalized (the nonce lives in the stored context, which finalization consumes). Invoice flow: the honest payer's
+/// reply is finalized, then a reply built by hand over another coin arrives. Send flow: the recipient's first reply is
+/// finalized, then the reply of a second receipt (the recipient cancelled and received the same slate again) arrives.
+/// Violated if the second finalization succeeds and returns a different kernel carrying the same public nonce from
+/// the finalizing wallet (two messages signed under one nonce reveal the secret excess).
+fn second_reply_after_finalization(a: &Args, rep: &mut Report, rng: &mut Rng) {
+	use grin_keychain::{ExtKeychain, Keychain};
+	use grin_wallet_libwallet::{InitTxArgs, IssueInvoiceTxArgs, Slate};
+	let dir = format!("{}/second-reply", a.work);
+	let mut w = World::two(&dir);
+	let _ = w.mine_n(Some(0), 7);
+	let _ = w.mine_n(Some(1), 3);
+	let _ = w.mine_n(None, 3);
+	let _ = w.wallets[0].refresh();
+	let _ = w.wallets[1].refresh();
+	let secp = grin_util::static_secp_instance();
+	let nonce_hex = |s: &Slate, i: usize| -> Option<String> {
+		let secp = secp.lock();
+		s.participant_data.get(i).map(|p| hex(&p.public_nonce.serialize_vec(&secp, true)))
+	};
+	let nonces_of = |s: &Slate| -> Vec<String> { (0..s.participant_data.len()).filter_map(|i| nonce_hex(s, i)).collect() };
+	for flow in ["Invoice", "Send"].iter() {
+		let amount = 1_000_000_000 + rng.below(2_000_000_000);
+		let args = InitTxArgs { amount, minimum_confirmations: 1, num_change_outputs: 1, selection_strategy_is_use_all: false, ..Default::default() };
+		// (finalizing wallet, its first slate, reply A, reply B)
+		let built: Result<(usize, Slate, Slate, Slate), String> = (|| {
+			let e = |x: grin_wallet_libwallet::Error| format!("{:?}", x);
+			if *flow == "Invoice" {
+				let i1 = w.wallets[1].issue_invoice(IssueInvoiceTxArgs { amount, ..Default::default() }).map_err(e)?;
+				let ra = w.wallets[0].process_invoice(&i1, args.clone()).map_err(e)?;
+				w.wallets[0].lock_outputs(&ra).map_err(e)?;
+				let height = w.node.chain().head().map(|h| h.height).unwrap_or(0);
+				let fee = grin_core::libtx::tx_fee(1, 2, 1);
+				let coin = w.wallets[0].all_outputs().map_err(e)?.into_iter().find(|o| o.eligible_to_spend(height, 1) && o.value > amount + fee + 1_000_000).ok_or("no second coin")?;
+				let kc0 = w.wallets[0].keychain();
+				let change_key = ExtKeychain::derive_key_id(3, 0, 0, 4_000_000 + (rng.next() as u32 % 1_000_000), 0);
+				let rb = crate::props::c02::hand_built_invoice_reply(&kc0, &i1, &coin, 0, fee, amount, &change_key).map_err(e)?;
+				Ok((1, i1, ra, rb))
+			} else {
+				let s1 = w.wallets[0].init_send(args.clone()).map_err(e)?;
+				w.wallets[0].lock_outputs(&s1).map_err(e)?;
+				let ra = w.wallets[1].receive(&s1, None).map_err(e)?;
+				w.wallets[1].cancel(None, Some(s1.id)).map_err(e)?;
+				let rb = w.wallets[1].receive(&s1, None).map_err(e)?;
+				Ok((0, s1, ra, rb))
+			}
+		})();
+		let (fin, first, ra, rb) = match built {
+			Ok(x) => x,
+			Err(e) => {
+				rep.inconclusive(&format!("second reply after finalization ({}): setup failed: {}", flow, e));
+				continue;
+			}
+		};
+		let own_nonce = match nonce_hex(&first, 0) {
+			Some(n) => n,
+			None => continue,
+		};
+		if nonces_of(&ra) == nonces_of(&rb) {
+			rep.inconclusive(&format!("second reply after finalization ({}): the two replies do not differ", flow));
+			continue;
+		}
+		let finalize = |w: &World, s: &Slate| if *flow == "Invoice" { w.wallets[fin].foreign_finalize(s) } else { w.wallets[fin].finalize(s) };
+		rep.eval();
+		let f1 = match finalize(&w, &ra) {
+			Ok(f) => f,
+			Err(e) => {
+				rep.inconclusive(&format!("second reply after finalization ({}): the first reply was refused: {:?}", flow, e));
+				continue;
+			}
+		};
+		rep.count(&format!("second-reply-after-finalization:{}:context-{}", flow, if w.wallets[fin].context(&first.id).is_err() { "gone" } else { "STILL-STORED" }));
+		rep.eval();
+		match catch(|| finalize(&w, &rb)) {
+			Err((loc, msg)) => rep.violation(&format!("C12|panic|{}", loc), &format!("finalize of a second reply panicked: {}", msg), json!({"job": a.prop, "flow": flow})),
+			Ok(Err(_)) => {
+				rep.count(&format!("second-reply-after-finalization:{}:refused", flow));
+				rep.distinct(&("second-reply", *flow, "refused"));
+			}
+			Ok(Ok(f2)) => {
+				rep.count(&format!("second-reply-after-finalization:{}:ACCEPTED", flow));
+				let k1 = f1.tx.as_ref().and_then(|t| t.kernels().get(0).cloned());
+				let k2 = f2.tx.as_ref().and_then(|t| t.kernels().get(0).cloned());
+				let differ = match (&k1, &k2) {
+					(Some(a), Some(b)) => a.excess != b.excess || a.excess_sig != b.excess_sig,
+					_ => false,
+				};
+				if differ && nonces_of(&f1).contains(&own_nonce) && nonces_of(&f2).contains(&own_nonce) {
+					rep.violation(
+						&format!("C12|nonce-signed-two-messages|second-reply-after-finalization:{}", flow),
+						&format!("wallet {} finalized two different replies to its {} {}: both finalized slates carry its public nonce {}.. and their kernels differ (excess {} vs {}), i.e. one secret nonce signed two messages", fin, if *flow == "Invoice" { "invoice" } else { "send" }, first.id, &own_nonce[..16], k1.map(|k| hex(&k.excess.0[..8])).unwrap_or_default(), k2.map(|k| hex(&k.excess.0[..8])).unwrap_or_default()),
+						json!({"job": a.prop, "flow": flow, "scenario": "second, different reply to an already finalized transaction"}),
+					);
+				}
+			}
+		}
+		for i in 0..2 {
+			if let Ok(txs) = w.wallets[i].all_txs() {
+				for t in txs {
+					if !t.confirmed && (t.tx_type == grin_wallet_libwallet::TxLogEntryType::TxSent || t.tx_type == grin_wallet_libwallet::TxLogEntryType::TxReceived) {
+						let _ = w.wallets[i].cancel(Some(t.id), None);
+					}
+				}
+			}
+		}
+	}
+	drop(w);
+	let _ = std::fs::remove_dir_all(&dir);
 }
 
 /// C15 restore clause: after a restore from seed + scan, the next path handed out lies beyond
